@@ -1271,27 +1271,46 @@ func (r *lieRun) queries() {
 	}
 	h := rapid.Int64Range(w.init, w.tip-1).Draw(t, "query.h")
 	s := rapid.SampledFrom(stores).Draw(t, "query.store")
-	var plain []string
-	for _, k := range w.kv.Keys(h, s) {
-		if len(k) < 2 || k[:2] != "x:" { // keys the honest path already refuses (finding C20-keypath-x-prefix) carry no signal here
-			plain = append(plain, k)
-		}
-	}
+	plain := w.kv.Keys(h, s)
 	if len(plain) == 0 {
 		return
 	}
 	key := []byte(rapid.SampledFrom(plain).Draw(t, "query.key"))
-	path := "/store/" + s + "/key"
-	otherStore := stores[0]
-	if otherStore == s {
-		otherStore = stores[1]
-	}
-	var otherKey []byte
+	// prefer a key that has a look-alike (confusable) sibling in the same store
+	var withSibling []string
 	for _, k := range plain {
-		if k != string(key) {
-			otherKey = []byte(k)
+		for _, c := range confusables([]byte(k)) {
+			if _, ok := w.kv.Get(h, s, c); ok {
+				withSibling = append(withSibling, k)
+				break
+			}
 		}
 	}
+	if len(withSibling) > 0 && rapid.Bool().Draw(t, "query.prefer-confusable") {
+		key = []byte(rapid.SampledFrom(withSibling).Draw(t, "query.confusable-key"))
+	}
+	path := "/store/" + s + "/key"
+	otherStore := map[string]string{"acc": "meta", "meta": "acc", "x+y z": "x y z", "x y z": "x+y z"}[s]
+	var otherKey []byte
+	var others [][]byte // every other key of the store, look-alikes first
+	for _, c := range confusables(key) {
+		if _, ok := w.kv.Get(h, s, c); ok {
+			others = append(others, c)
+		}
+	}
+	for _, k := range plain {
+		dup := k == string(key)
+		for _, o := range others {
+			dup = dup || string(o) == k
+		}
+		if !dup && len(others) < 6 {
+			others = append(others, []byte(k))
+		}
+	}
+	if len(others) > 0 {
+		otherKey = others[0]
+	}
+	lib.Class(testF, fmt.Sprintf("query-target:store=%q,confusable-sibling=%v", s, len(withSibling) > 0 && len(confusables(key)) > 0 && otherKey != nil && isConfusable(key, otherKey)))
 	otherH := w.otherHeight(t, h, "query.otherh")
 	if otherH >= w.tip {
 		otherH = h
@@ -1459,6 +1478,43 @@ func (r *lieRun) queries() {
 			return true
 		}),
 	}
+	// the answer keeps the asked key (and path) but carries value and proof of ANOTHER key of the store — every other
+	// key in turn, look-alikes of the asked key first — or of the same key in the look-alike store
+	for _, ok := range others {
+		ok := ok
+		kind := "other"
+		if isConfusable(key, ok) {
+			kind = "confusable"
+		}
+		lies = append(lies,
+			on("value+proof.inner."+kind+"-key(key kept)", func(p *abci.ResponseQuery) bool {
+				o := q(s, ok, h)
+				if o == nil {
+					return false
+				}
+				p.Value, p.ProofOps.Ops[0] = o.Value, o.ProofOps.Ops[0]
+				return true
+			}),
+			on("value+proofs."+kind+"-key(key kept)", func(p *abci.ResponseQuery) bool {
+				o := q(s, ok, h)
+				if o == nil {
+					return false
+				}
+				p.Value, p.ProofOps = o.Value, o.ProofOps
+				return true
+			}))
+	}
+	lies = append(lies, on("value+proofs.other-store(key kept)", func(p *abci.ResponseQuery) bool {
+		if _, exists := w.kv.Get(h, otherStore, key); !exists {
+			return false
+		}
+		o := q(otherStore, key, h)
+		if o == nil {
+			return false
+		}
+		p.Value, p.ProofOps = o.Value, o.ProofOps
+		return true
+	}))
 	c := w.drawVerifier(t, r.liar, "query.v")
 	opts := rpcclient.ABCIQueryOptions{Height: h, Prove: true}
 	hon, _ := newLiar(w.core).ABCIQueryWithOptions(bg, path, key, opts)
@@ -1480,6 +1536,15 @@ func forgeImpossible(p *abci.ResponseQuery, store string, total, index int64) {
 	inner := &merkle.Proof{Total: total, Index: index, LeafHash: refLeafHash(refKVLeaf(p.Key, p.Value))}
 	outer := &merkle.Proof{Total: total, Index: index, LeafHash: refLeafHash(refKVLeaf([]byte(store), nil))} // the inner "root" is nil
 	p.ProofOps = &tmcrypto.ProofOps{Ops: []tmcrypto.ProofOp{merkle.NewValueOp(p.Key, inner).ProofOp(), merkle.NewValueOp([]byte(store), outer).ProofOp()}}
+}
+
+func isConfusable(k, o []byte) bool {
+	for _, c := range confusables(k) {
+		if bytes.Equal(c, o) {
+			return true
+		}
+	}
+	return false
 }
 
 func refKVLeaf(key, value []byte) []byte {
